@@ -52,6 +52,8 @@ pub struct RandomDir {
     pub faults: u32,
     /// number of callback-made operations left for the current top-level operation
     pub cb_budget: u32,
+    /// operations to run next (scenario builders, post-fault probes)
+    pub queue: std::collections::VecDeque<Value>,
 }
 
 /// Plain script: callbacks do nothing, except that the k-th callback of a kind
@@ -317,6 +319,10 @@ fn gen_cb_op<P: Pad>(r: &mut RandomDir, w: &mut World<P>, kind: CbKind, me: u32)
             _ => None,
         };
     }
+    if kind == CbKind::Finalize && r.cfg.weak && w.nw > 0 && rng.gen_bool(0.22) {
+        // upgrade one of my own weak fields (a neighbour, possibly of the set being reclaimed)
+        return Some(json!({"e": "call", "op": "upgradef", "a": me, "k": "w", "i": rng.gen_range(1..=w.nw)}));
+    }
     let c = rng.gen_range(0..100);
     let slot = |rng: &mut StdRng, w: &World<P>| -> (String, u32) {
         if w.np > 0 && rng.gen_bool(0.25) {
@@ -471,5 +477,74 @@ pub fn gen_top_op<P: Pad>(r: &mut RandomDir, w: &mut World<P>) -> Option<Value> 
 }
 
 pub fn new_random(seed: u64, cfg: RandomCfg) -> Dir {
-    Dir::Random(Box::new(RandomDir { rng: StdRng::seed_from_u64(seed), cfg, faults: 0, cb_budget: 0 }))
+    Dir::Random(Box::new(RandomDir { rng: StdRng::seed_from_u64(seed), cfg, faults: 0, cb_budget: 0, queue: Default::default() }))
+}
+
+/// After a caught panic: poke the objects the program still holds in the way that exposes stale collector
+/// state (marks / tracing counters left behind by an unwound collection): remove one counted internal
+/// reference to a held object, hang a fresh garbage cycle on it, collect.
+pub fn gen_probe<P: Pad>(r: &mut RandomDir, w: &mut World<P>) {
+    let roots = root_ids(w);
+    let rng = &mut r.rng;
+    let Some(x) = pick(rng, &roots) else { return };
+    // a held object with a traced field pointing to x
+    let mut incoming: Vec<(u32, u32)> = Vec::new();
+    for (y, v) in w.roots.iter() {
+        if let Some(cc) = v.first() {
+            if let Ok(sl) = cc.slots.try_borrow() {
+                for s in sl.iter() {
+                    if s.inner.is_some() && s.target == x {
+                        incoming.push((*y, s.idx));
+                    }
+                }
+            }
+        }
+    }
+    if let Some((y, i)) = pick(rng, &incoming) {
+        if rng.gen_bool(0.8) {
+            r.queue.push_back(json!({"e": "call", "op": "clear", "a": y, "k": "s", "i": i}));
+        }
+    }
+    let g = w.next_id;
+    r.queue.push_back(json!({"e": "call", "op": "new", "o": g}));
+    if w.ns >= 2 {
+        r.queue.push_back(json!({"e": "call", "op": "set", "a": g, "k": "s", "i": 1, "b": g}));
+        r.queue.push_back(json!({"e": "call", "op": "set", "a": g, "k": "s", "i": 2, "b": x}));
+    } else {
+        r.queue.push_back(json!({"e": "call", "op": "set", "a": g, "k": "s", "i": 1, "b": x}));
+    }
+    r.queue.push_back(json!({"e": "call", "op": "drop", "o": g}));
+    r.queue.push_back(json!({"e": "call", "op": "collect"}));
+}
+
+/// Structures that the uniform generator rarely builds: a garbage cycle whose member owns, through an
+/// untraced field, a uniquely owned helper that holds a Weak to a member of the cycle (its finalizer /
+/// destructor runs inside the destructor phase of the collection that reclaims the cycle).
+pub fn gen_scenario<P: Pad>(r: &mut RandomDir, w: &mut World<P>) {
+    if !(r.cfg.weak && w.np >= 1 && w.nw >= 1 && w.ns >= 1) {
+        return;
+    }
+    let rng = &mut r.rng;
+    let (a, b, h) = (w.next_id, w.next_id + 1, w.next_id + 2);
+    let target = if rng.gen_bool(0.5) { b } else { a };
+    let owner = if rng.gen_bool(0.5) { a } else { b };
+    let first = rng.gen_bool(0.5);
+    let q = &mut r.queue;
+    for o in [a, b, h] {
+        q.push_back(json!({"e": "call", "op": "new", "o": o}));
+    }
+    q.push_back(json!({"e": "call", "op": "downgrade", "o": target}));
+    q.push_back(json!({"e": "call", "op": "setw", "a": h, "k": "w", "i": 1, "o": target}));
+    q.push_back(json!({"e": "call", "op": "dropw", "o": target}));
+    q.push_back(json!({"e": "call", "op": "put", "a": owner, "k": "p", "i": 1, "o": h}));
+    q.push_back(json!({"e": "call", "op": "set", "a": a, "k": "s", "i": 1, "b": b}));
+    q.push_back(json!({"e": "call", "op": "set", "a": b, "k": "s", "i": 1, "b": a}));
+    if w.ns >= 2 {
+        // a second pointer to the observed member from inside the set keeps its count above zero while
+        // the other members' fields are being dropped
+        q.push_back(json!({"e": "call", "op": "set", "a": target, "k": "s", "i": 2, "b": target}));
+    }
+    q.push_back(json!({"e": "call", "op": "drop", "o": if first { a } else { b }}));
+    q.push_back(json!({"e": "call", "op": "drop", "o": if first { b } else { a }}));
+    q.push_back(json!({"e": "call", "op": "collect"}));
 }
